@@ -54,14 +54,30 @@ def population(idx):
 # ---------------------------------------------------------------------------
 # helpers executed in pristine forks
 
+FORM_ENCODINGS = ['utf-8', 'koi8_r', 'cp1251', 'cp1252', 'utf_8_sig',
+                  'latin-1', 'utf-16']
+
+
 def _call_fn(api, text, opts, form, consume):
     import io
     import sqlparse
 
     def fn():
-        obj = io.StringIO(text) if form == 'sio' else text
+        enc = None
+        if form == 'sio':
+            obj = io.StringIO(text)
+        elif form == 'bytes':
+            obj = text.encode('utf-8')
+        elif form.startswith('bytes_enc:'):
+            enc = form.split(':', 1)[1]
+            obj = text.encode(enc)
+        elif form == 'tstream':
+            from sim import iofake
+            obj = iofake.SimTextStream(text, {}, iofake.Chan())
+        else:
+            obj = text
         if api == 'parsestream' and consume is not None:
-            g = sqlparse.parsestream(obj)
+            g = sqlparse.parsestream(obj, enc)
             out = []
             for _ in range(consume):
                 try:
@@ -69,7 +85,7 @@ def _call_fn(api, text, opts, form, consume):
                 except StopIteration:
                     break
             return out
-        return ops.raw_call(api, obj, opts, None)
+        return ops.raw_call(api, obj, opts, enc)
     return fn
 
 
@@ -142,7 +158,17 @@ def draw_case(rng, tier):
             opts = corpus.draw_opts(rng)
     elif api == 'split' and rng.random() < 0.3:
         opts = {'strip_semicolon': True}
-    form = 'sio' if rng.random() < 0.15 else 'str'
+    fr = rng.random()
+    if fr < 0.6:
+        form = 'str'
+    elif fr < 0.7:
+        form = 'sio'
+    elif fr < 0.8:
+        form = 'bytes'
+    elif fr < 0.95:
+        form = 'bytes_enc:' + rng.choice(FORM_ENCODINGS)
+    else:
+        form = 'tstream'
     consume = None
     prefix = ''
     if api == 'parsestream':
@@ -385,7 +411,9 @@ def _control(call, H, P):
     """The un-nested control at the same state and head-room, in a sibling
     fork: does a RecursionError escape there too?"""
     from sim.forkrun import fork_eval
-    ctl = dict(call, inp={'t': 'str', 'v': 'select 1'})
+    # always the plain str form: every input form has to get inside the
+    # guarded region with the stack a str call needs for that
+    ctl = dict(call, inp={'t': 'str', 'v': 'select 1'}, form='str')
 
     def go():
         k, v, _t = _do_faulted(ctl, H, P)
@@ -448,6 +476,7 @@ def run(spec, refs):
             kind, val, text = _do_faulted(call, H, P)
             limit_delta = ops.LIMIT_DELTA[0]
         stat('faulted_calls')
+        stat('form_' + str(call.get('form', 'str')).split(':')[0])
         stat('outcome_' + kind)
         site = None
         if kind in ('sqlparseerror', 'recursion'):
@@ -645,7 +674,7 @@ def candidates(spec):
                 c = copy.deepcopy(spec)
                 del c['calls'][i]['opts'][k]
                 yield c
-        if call.get('form') == 'sio':
+        if call.get('form') not in (None, 'str'):
             c = copy.deepcopy(spec)
             c['calls'][i]['form'] = 'str'
             yield c
